@@ -109,7 +109,7 @@ pub fn judge(cfg: &Cfg) -> Vec<(String, String)> {
 
 pub fn tuples(tier: Tier) -> Vec<Tuple> {
     let mut v = Vec::new();
-    let (max_old, max_new) = match tier { Tier::Quick => (2, 1), Tier::Thorough => (3, 2) };
+    let (max_old, max_new) = match tier { Tier::Quick => (2, 2), Tier::Thorough => (3, 2) };
     for exec in [Exec::FalFut, Exec::Fut, Exec::Fal, Exec::Plain] {
         let alphabet = if exec.futures() { vec![Class::Ok, Class::SlowOk, Class::LateOk] } else { vec![Class::Ok] };
         for limit in [1u32, 2] {
